@@ -242,6 +242,11 @@ class CallsMixin:
 
     def mapview_seq(self, m, what):
         """list(dict view): the live entries of the insertion log, in order, as a fresh list."""
+        # the listing is a function of the dict value: the same dict (term for term) lists the same way
+        memo = self.p.__dict__.setdefault('mapview_memo', {})
+        mkey = (what,) + tuple(t.get_id() for t in m.terms)
+        if mkey in memo:
+            return memo[mkey]
         n = m.terms[1]
 
         def elem(pos):
@@ -270,6 +275,7 @@ class CallsMixin:
             0 <= z3.Select(inv, i), z3.Select(inv, i) < cnt, z3.Select(idx, z3.Select(inv, i)) == i)),
             patterns=[z3.Select(inv, i), z3.Select(m.terms[2], i)]))
         self.assume_valid(out)
+        memo[mkey] = out
         return out
 
     def b_tuple(self, args, kwargs, node):
